@@ -68,15 +68,19 @@ void *asm_get_code__c(assemblyline_t al)
 
 /* file entry points (C19): the text handed to the in-memory entry point is the mapping; it must
  * be a NUL-terminated string inside its object (asm_assemble_str__f's precondition) */
+/* ghosts: which in-memory entry point the file wrapper called, with which arguments */
+int g_inner_kind; int g_inner_chunk; int *g_inner_dest; unsigned g_inner_calls;
 int asm_assemble_str__f(assemblyline_t al, const char *assembly_str)
   __CPROVER_requires(__CPROVER_r_ok(assembly_str, g_map_size))
   __CPROVER_requires(g_file_len < g_map_size && assembly_str[g_file_len] == '\0')    /* a terminator exists behind the file's bytes */
-  __CPROVER_assigns(__CPROVER_object_whole(al), g_inner_rc)
-  __CPROVER_ensures((__CPROVER_return_value == EXIT_SUCCESS || __CPROVER_return_value == EXIT_FAILURE) && g_inner_rc == __CPROVER_return_value);
+  __CPROVER_assigns(__CPROVER_object_whole(al), g_inner_rc, g_inner_kind, g_inner_calls)
+  __CPROVER_ensures((__CPROVER_return_value == EXIT_SUCCESS || __CPROVER_return_value == EXIT_FAILURE) && g_inner_rc == __CPROVER_return_value)
+  __CPROVER_ensures(g_inner_kind == 1 && g_inner_calls == __CPROVER_old(g_inner_calls) + 1);
 int asm_assemble_string_counting_chunks__f(assemblyline_t al, char *str, int chunk_size, int *dest)
   __CPROVER_requires(__CPROVER_r_ok(str, g_map_size))
   __CPROVER_requires(g_file_len < g_map_size && str[g_file_len] == '\0')
-  __CPROVER_assigns(__CPROVER_object_whole(al), *dest, g_inner_rc)
-  __CPROVER_ensures((__CPROVER_return_value == EXIT_SUCCESS || __CPROVER_return_value == EXIT_FAILURE) && g_inner_rc == __CPROVER_return_value);
+  __CPROVER_assigns(__CPROVER_object_whole(al), g_inner_rc, g_inner_kind, g_inner_calls, g_inner_chunk, g_inner_dest; dest != NULL: *dest)
+  __CPROVER_ensures((__CPROVER_return_value == EXIT_SUCCESS || __CPROVER_return_value == EXIT_FAILURE) && g_inner_rc == __CPROVER_return_value)
+  __CPROVER_ensures(g_inner_kind == 2 && g_inner_chunk == chunk_size && g_inner_dest == dest && g_inner_calls == __CPROVER_old(g_inner_calls) + 1);
 #endif
 #endif
